@@ -18,7 +18,7 @@ from sim.env import Sim
 from sim.loop import SimLivelock
 
 ID = "C19"
-REAL = ["PVPowerFormula and BatteryPowerFormula generators (+ fallback pairing on the real component graph)", "FallbackFormulaMetricFetcher",
+REAL = ["PVPowerFormula, BatteryPowerFormula and GridPowerFormula generators (+ fallback pairing on the real component graph)", "FallbackFormulaMetricFetcher",
         "MetricFetcher._fetch_next / fetch_next_with_fallback / _synchronize_and_fetch_fallback",
         "ResampledFormulaBuilder", "FormulaEngine / FormulaEvaluator", "ChannelRegistry"]
 STUB = ["resampling actor (harness answers ComponentMetricRequests and feeds resampled channels)"]
@@ -28,7 +28,7 @@ RULE = ("one run = 1-3 PV meters with 1-2 inverters each (optionally one bare in
         "non-trivial = at least one primary failure; distinct = abstract digest of (fault kind, component) sequence")
 QUICK_RUNS = 4000
 THOROUGH_RUNS = 250_000
-EXPECT_PROBES = ["battery_formula_variant", "fallback_started", "fallback_lagging", "primary_recovered", "fallback_before_primary", "primary_closed"]
+EXPECT_PROBES = ["grid_formula_variant", "battery_formula_variant", "fallback_started", "fallback_lagging", "primary_recovered", "fallback_before_primary", "primary_closed"]
 
 
 TAIL = 6
@@ -50,10 +50,16 @@ def scenario(sim: Sim) -> None:
     from frequenz.sdk.timeseries.formula_engine._formula_generators._pv_power_formula import PVPowerFormula
 
     ch = sim.ch
-    battery = ch.chance("battery_formula", 0.35)      # BatteryPowerFormula instead of PVPowerFormula
+    gk = ch.weighted("generator", [5, 3, 2])          # PVPowerFormula / BatteryPowerFormula / GridPowerFormula
+    battery = gk == 1
+    grid = gk == 2
     nterms = 1 + ch.weighted("nterms", [3, 3, 1])
-    comps = {Component(1, ComponentCategory.GRID), Component(2, ComponentCategory.METER)}
-    conns = {Connection(1, 2)}
+    comps = {Component(1, ComponentCategory.GRID)}
+    conns: set[Any] = set()
+    if not grid:
+        comps.add(Component(2, ComponentCategory.METER))
+        conns.add(Connection(1, 2))
+    top = 1 if grid else 2      # in the grid variant the PV meters are the grid's direct successors
     terms: list[dict[str, Any]] = []
     battery_ids: set[int] = set()
     for j in range(nterms):
@@ -61,7 +67,7 @@ def scenario(sim: Sim) -> None:
         ninv = 1 + ch.draw("ninv", 2)
         invs = [m + 1 + x for x in range(ninv)]
         comps.add(Component(m, ComponentCategory.METER))
-        conns.add(Connection(2, m))
+        conns.add(Connection(top, m))
         for i in invs:
             comps.add(Component(i, ComponentCategory.INVERTER, InverterType.BATTERY if battery else InverterType.SOLAR))
             conns.add(Connection(m, i))
@@ -73,13 +79,15 @@ def scenario(sim: Sim) -> None:
     bare = ch.chance("bare_inverter", 0.2)
     if bare:
         comps.add(Component(90, ComponentCategory.INVERTER, InverterType.BATTERY if battery else InverterType.SOLAR))
-        conns.add(Connection(2, 90))
+        conns.add(Connection(top, 90))
         if battery:
             comps.add(Component(94, ComponentCategory.BATTERY))
             conns.add(Connection(90, 94))
             battery_ids.add(94)
     if battery:
         sim.probe("battery_formula_variant")
+    if grid:
+        sim.probe("grid_formula_variant")
     api = fakes.FakeMicrogridApi(sim, comps, conns)
     fakes.install_connection_manager(api)
 
@@ -99,7 +107,7 @@ def scenario(sim: Sim) -> None:
         close = (terms[ch.draw("close_term", nterms)]["primary"], ch.draw("close_round", rounds))
     fb_none_rate = ch.choice("fb_none_rate", [0.0, 0.0, 0.04])
     lag = {i: ch.weighted("fb_lag", [4, 2, 1]) for t in terms for i in t["fallback"]}
-    sim.config.update(generator="battery" if battery else "pv", terms=terms, bare=bare, rounds=rounds, close=close, lag={str(k): x for k, x in lag.items()})
+    sim.config.update(generator="battery" if battery else ("grid" if grid else "pv"), terms=terms, bare=bare, rounds=rounds, close=close, lag={str(k): x for k, x in lag.items()})
     sim.loop.max_iters_no_advance = 4000
     sim.loop.max_steps = 60_000
     sim.set_cost_mode(ch.weighted("cost_mode", [3, 1]))
@@ -117,6 +125,10 @@ def scenario(sim: Sim) -> None:
             from frequenz.sdk.timeseries.formula_engine._formula_generators._battery_power_formula import BatteryPowerFormula
 
             gen: Any = BatteryPowerFormula("ns", reg, sub.new_sender(), FormulaGeneratorConfig(component_ids=battery_ids))
+        elif grid:
+            from frequenz.sdk.timeseries.formula_engine._formula_generators._grid_power_formula import GridPowerFormula
+
+            gen = GridPowerFormula("ns", reg, sub.new_sender(), FormulaGeneratorConfig())
         else:
             gen = PVPowerFormula("ns", reg, sub.new_sender(), FormulaGeneratorConfig())
         eng = gen.generate()
